@@ -362,7 +362,63 @@ def run_harness(exe, lines, jobs=4):
     return allres
 
 
+def memaddr_lines(chk, infos, quick, byname):
+    """memory operands with EVERY scale 1..255 (only 1/2/4/8 are hardware scales; all the others exist only through the
+    index*scale lowering of simplify_op, shared by all engines, and the address combiner): index register positive /
+    negative / large / wrapping, displacement of either sign and beyond 32 bits, with and without base, as the source of a
+    load, the destination of a store, the source of an arithmetic insn and in place; every integer memory type.  The cell
+    is placed by the harness at base + index*scale + disp (its own 64-bit arithmetic), so an engine that scales the index
+    differently reads / writes somewhere else."""
+    rng = chk.rng('memaddr')
+    lines = []
+    n = [0]
+    idxs = [1, -1, 2, -2, 3, -5, 7, 1000, -1000, 0x7fffffff, -0x80000000, 1 << 32, -(1 << 33) + 1]
+    disps = [0, 0, 8, -8, 127, -129, 1000, 0x7fffffff, -0x80000000, 1 << 33, -(1 << 40) + 3]
+    mov, add = byname['MOV'], byname.get('ADD')
+
+    def mem(ty, scale, val=None):
+        form = rng.choice(['bi', 'bi', 'bid', 'bid', 'i', 'id'])
+        index = rng.choice(idxs)
+        if 'b' in form and rng.random() < 0.1:
+            index = (1 << 61) * rng.choice([1, 3, -1]) + rng.choice([1, -7, 5])
+        disp = rng.choice(disps) if 'd' in form else 0
+        t = 'm%s,%s,%d,%d,%d' % (ty, form, scale, disp, index)
+        return t if val is None else t + ':%x' % (val & ((1 << (8 * G.TYPE_SIZE[ty])) - 1))
+
+    def cid():
+        n[0] += 1
+        return 'ma%d' % n[0]
+    for scale in range(1, 256):
+        reps = 1 if quick else 6
+        for _ in range(reps):
+            ty = rng.choice(G.MEM_INT_TYPES)
+            v = rng.getrandbits(64) | 0x8080808080808080
+            lines.append(G.gen_case(mov, rng, cid(), vals=[v], shapes=['m'], dst='r', optexts=[mem(ty, scale, v)], press=0))
+            lines.append(G.gen_case(mov, rng, cid(), vals=[v], shapes=['r'], dst=mem(rng.choice(G.MEM_INT_TYPES), scale), press=0))
+            if add is not None:
+                w = rng.getrandbits(64)
+                ty = rng.choice(G.MEM_INT_TYPES)
+                k = rng.randrange(3)
+                if k == 0:      # memory source of an arithmetic insn
+                    lines.append(G.gen_case(add, rng, cid(), vals=[v, w], shapes=['m', 'r'], dst='r',
+                                            optexts=[mem(ty, scale, v), 'r:%x' % w], press=0))
+                elif k == 1:    # in place: op m, m, r
+                    lines.append(G.gen_case(add, rng, cid(), vals=[v, w], shapes=['m', 'r'], dst='X',
+                                            optexts=[mem(ty, scale, v), 'r:%x' % w], press=0))
+                else:           # two memory sources and a memory destination, three different scales
+                    s2, s3 = rng.randint(1, 255), rng.randint(1, 255)
+                    lines.append(G.gen_case(add, rng, cid(), vals=[v, w], shapes=['m', 'm'], dst=mem(rng.choice(G.MEM_INT_TYPES), s3),
+                                            optexts=[mem(ty, scale, v), mem(rng.choice(G.MEM_INT_TYPES), s2, w)], press=0))
+    for l in lines:
+        for m in re.finditer(r'\bm\w+,(\w+),(\d+),', l):
+            sc = int(m.group(2))
+            chk.dist('memaddr_scale', 'hardware 1/2/4/8' if sc in (1, 2, 4, 8) else 'other power of two' if sc & (sc - 1) == 0
+                     else 'not a power of two')
+    return lines
+
+
 def generate(chk, infos, quick, c20=False):
+    G.WIDE_SCALES[0] = not c20
     rng = chk.rng('cases')
     lines = []
     n = 0
@@ -468,6 +524,8 @@ def generate(chk, infos, quick, c20=False):
             lines.append(G.gen_case(info, rng, c20=c20, cid= 't%d' % n, vals=vals, shapes=shapes, dst='r', pre=pre, post=post))
     lines += aimed_lines(chk, infos, quick, c20, byname)
     lines += conversion_lines(chk, infos, quick, c20, byname)
+    if not c20:
+        lines += memaddr_lines(chk, infos, quick, byname)
     return lines
 
 
